@@ -357,6 +357,34 @@ func TestC13ConcurrentReaders(t *testing.T) {
 				}
 			}()
 		}
+		// ... and readers of single nodes: a node's balance is its trial credit until it is linked and its wallet's
+		// balance from then on - never "nothing" in between
+		amts := make([]*big.Int, k)
+		for i := range amts {
+			amts[i], _ = new(big.Int).SetString(amounts[i], 10)
+		}
+		for r := 0; r < 2; r++ {
+			wg.Add(1)
+			go func() {
+				defer wg.Done()
+				for i := 0; ; i = (i + 1) % k {
+					select {
+					case <-stop:
+						return
+					default:
+					}
+					b, err := st.GetNodeBalance(store.NodeID(fmt.Sprintf("n%d", i)))
+					mu.Lock()
+					reads++
+					if err != nil {
+						bad = append(bad, fmt.Sprintf("GetNodeBalance(n%d) error: %v", i, err))
+					} else if b.Account == "" && b.Credit.Cmp(amts[i]) != 0 {
+						bad = append(bad, fmt.Sprintf("GetNodeBalance(n%d) saw an unlinked node with credit %s; its trial credit is %s until the link (which moves it to the wallet in one transaction)", i, b.Credit.String(), amts[i]))
+					}
+					mu.Unlock()
+				}
+			}()
+		}
 		for i := 0; i < k; i++ {
 			acct := store.Account(rapid.SampledFrom([]string{"W1", "W2"}).Draw(rt, "wallet"))
 			if err := st.AddAccountNode(acct, store.NodeID(fmt.Sprintf("n%d", i))); err != nil {
